@@ -1,5 +1,5 @@
 ------------------------------ MODULE GenLimits ------------------------------
-(* Cases for C16: every bounded resource at capacity-1, capacity, capacity+1, 2x, 16x *)
+(* Cases for C16: every bounded resource at capacity-1, capacity, capacity+1, 2x, 16x; nesting at 8192 and 300000 *)
 EXTENDS Integers, Sequences, TLC, Json
 VARIABLE c
 Res == {[r |-> "ident", cap |-> 512], [r |-> "number", cap |-> 512], [r |-> "string", cap |-> 512],
@@ -8,12 +8,16 @@ Res == {[r |-> "ident", cap |-> 512], [r |-> "number", cap |-> 512], [r |-> "str
         [r |-> "equ_text", cap |-> 512], [r |-> "define_text", cap |-> 1024], [r |-> "include_name", cap |-> 512],
         [r |-> "include_path", cap |-> 4096], [r |-> "include_paths_total", cap |-> 4096], [r |-> "operands", cap |-> 16],
         [r |-> "nest_macro", cap |-> 128], [r |-> "nest_if", cap |-> 128], [r |-> "nest_include", cap |-> 128],
-        [r |-> "nest_paren", cap |-> 512], [r |-> "nest_unary", cap |-> 512], [r |-> "repeat_count", cap |-> 65536],
+        [r |-> "nest_paren", cap |-> 128], [r |-> "nest_unary", cap |-> 128], [r |-> "nest_unary_paren", cap |-> 128],
+        [r |-> "nest_unary_operand", cap |-> 128], [r |-> "nest_ifexpr_not", cap |-> 128], [r |-> "nest_ifexpr_paren", cap |-> 128], [r |-> "repeat_count", cap |-> 65536],
         [r |-> "resb", cap |-> 65536], [r |-> "data_fill", cap |-> 65536], [r |-> "db_items", cap |-> 512],
         [r |-> "label_count", cap |-> 512], [r |-> "line_length", cap |-> 4096], [r |-> "comment_length", cap |-> 4096],
         [r |-> "define_recursion", cap |-> 2], [r |-> "define_chain", cap |-> 128], [r |-> "include_self", cap |-> 1]}
 Lens(cap) == {1, cap \div 2, cap - 1, cap, cap + 1, cap + 2, 2 * cap, 2 * cap + 1} \cup (IF cap <= 4096 THEN {16 * cap} ELSE {})
-Init == \E x \in Res : \E n \in Lens(x.cap) : n >= 1 /\ c = [res |-> x.r, cap |-> x.cap, len |-> n]
+\* recursion in the code follows the nesting of the input: these are also tried far beyond any stack
+Deep == {"nest_paren", "nest_unary", "nest_unary_paren", "nest_unary_operand", "nest_if", "nest_ifexpr_not", "nest_ifexpr_paren"}
+Init == \E x \in Res : \E n \in Lens(x.cap) \cup (IF x.r \in Deep THEN {8192, 300000} ELSE {}) :
+          n >= 1 /\ c = [res |-> x.r, cap |-> x.cap, len |-> n]
 Next == FALSE /\ UNCHANGED c
 Emit == PrintT("CASE " \o ToJson(c))
 =============================================================================
